@@ -35,6 +35,34 @@ type op struct {
 	high bool // takes the read lock itself
 }
 
+// keeper remembers the rows a scan hands to its callback - the values
+// themselves, not copies: they are documented to stay valid for the rest of
+// the transaction - and looks at all of them again when the scan is asked to
+// stop (and every 50 rows): a row delivered earlier must not have changed.
+type keeper struct {
+	rowids []int64
+	rows   [][]interface{}
+	text   []string
+}
+
+var rowChanged string // set by a keeper, read after the operation returned
+
+func newKeeper() *keeper { return &keeper{} }
+
+func (k *keeper) see(rowid int64, rec []interface{}, cb func(string) bool) bool {
+	s := render(rowid, rec)
+	k.rowids, k.rows, k.text = append(k.rowids, rowid), append(k.rows, rec), append(k.text, s)
+	stop := cb(s)
+	if stop || len(k.rows)%50 == 0 {
+		for i := range k.rows {
+			if now := render(k.rowids[i], k.rows[i]); now != k.text[i] && rowChanged == "" {
+				rowChanged = fmt.Sprintf("row %d of %d delivered so far was %s when the callback got it and is %s now (the call has not returned yet)", i+1, len(k.rows), k.text[i], now)
+			}
+		}
+	}
+	return stop
+}
+
 func render(rowid int64, rec []interface{}) string {
 	vs, ok := bt.RecordVals(sdb.Record(rec))
 	if !ok {
@@ -54,7 +82,7 @@ func TestC17EarlyStop(t *testing.T) {
 		},
 		Teardown: func() { env.Close() },
 		Gen: func(t *rapid.T) spec {
-			return spec{Img: btgen.Image(t, btgen.Opts{MaxRows: 40, Indexes: true, WR: true, LongValues: true, RowidAlias: true}), Seed: rapid.Uint64().Draw(t, "seed")}
+			return spec{Img: btgen.Image(t, btgen.Opts{MaxRows: rapid.SampledFrom([]int{40, 40, 40, 40, 40, 40, 170}).Draw(t, "maxrows"), Indexes: true, WR: true, LongValues: true, RowidAlias: true}), Seed: rapid.Uint64().Draw(t, "seed")}
 		},
 		Run: run,
 	})
@@ -101,15 +129,18 @@ func run(r *vt.Run, t vt.TB, s spec) {
 		return
 	}
 	ops = append(ops, op{name: "Table.Scan(t)", run: func(cb func(string) bool) error {
-		return tab.Scan(func(rowid int64, rec sdb.Record) bool { return cb(render(rowid, rec)) })
+		k := newKeeper()
+		return tab.Scan(func(rowid int64, rec sdb.Record) bool { return k.see(rowid, rec, cb) })
 	}})
 	cols := append([]string{"rowid"}, tt.Spec.ColNames()...)
 	ops = append(ops, op{name: "SelectDone(t)", high: true, run: func(cb func(string) bool) error {
-		return hl.SelectDone("t", func(row sqlittle.Row) bool { return cb(render(0, row)) }, cols...)
+		k := newKeeper()
+		return hl.SelectDone("t", func(row sqlittle.Row) bool { return k.see(0, row, cb) }, cols...)
 	}})
 	addIndexOps := func(name string, ix *sdb.Index, entries []bt.Entry, attrs []refcmp.KeyCol) {
 		ops = append(ops, op{name: "Index.Scan(" + name + ")", run: func(cb func(string) bool) error {
-			return ix.Scan(func(rec sdb.Record) bool { return cb(render(0, rec)) })
+			k := newKeeper()
+			return ix.Scan(func(rec sdb.Record) bool { return k.see(0, rec, cb) })
 		}})
 		mk := func(vs []val.V) sdb.Key {
 			var k sdb.Key
@@ -123,26 +154,32 @@ func run(r *vt.Run, t vt.TB, s spec) {
 			return k
 		}
 		ops = append(ops, op{name: "ScanMin(" + name + ", {})", run: func(cb func(string) bool) error {
-			return ix.ScanMin(sdb.Key{}, func(rec sdb.Record) bool { return cb(render(0, rec)) })
+			k := newKeeper()
+			return ix.ScanMin(sdb.Key{}, func(rec sdb.Record) bool { return k.see(0, rec, cb) })
 		}})
 		ops = append(ops, op{name: "ScanEq(" + name + ", {})", run: func(cb func(string) bool) error {
-			return ix.ScanEq(sdb.Key{}, func(rec sdb.Record) bool { return cb(render(0, rec)) })
+			k := newKeeper()
+			return ix.ScanEq(sdb.Key{}, func(rec sdb.Record) bool { return k.see(0, rec, cb) })
 		}})
 		if len(entries) > 0 {
 			a := entries[next(len(entries))].Values
 			b := entries[next(len(entries))].Values
 			ka, kb, k1 := mk(a[:1]), mk(b), mk(a[:1])
 			ops = append(ops, op{name: fmt.Sprintf("ScanMin(%s, %v)", name, val.Row(a[:1])), run: func(cb func(string) bool) error {
-				return ix.ScanMin(ka, func(rec sdb.Record) bool { return cb(render(0, rec)) })
+				k := newKeeper()
+				return ix.ScanMin(ka, func(rec sdb.Record) bool { return k.see(0, rec, cb) })
 			}})
 			ops = append(ops, op{name: fmt.Sprintf("ScanEq(%s, %v)", name, val.Row(a[:1])), run: func(cb func(string) bool) error {
-				return ix.ScanEq(k1, func(rec sdb.Record) bool { return cb(render(0, rec)) })
+				k := newKeeper()
+				return ix.ScanEq(k1, func(rec sdb.Record) bool { return k.see(0, rec, cb) })
 			}})
 			ops = append(ops, op{name: fmt.Sprintf("ScanRange(%s, %v, %v)", name, val.Row(a[:1]), val.Row(b)), run: func(cb func(string) bool) error {
-				return ix.ScanRange(ka, kb, func(rec sdb.Record) bool { return cb(render(0, rec)) })
+				k := newKeeper()
+				return ix.ScanRange(ka, kb, func(rec sdb.Record) bool { return k.see(0, rec, cb) })
 			}})
 			ops = append(ops, op{name: fmt.Sprintf("ScanRange(%s, {}, %v)", name, val.Row(b)), run: func(cb func(string) bool) error {
-				return ix.ScanRange(sdb.Key{}, kb, func(rec sdb.Record) bool { return cb(render(0, rec)) })
+				k := newKeeper()
+				return ix.ScanRange(sdb.Key{}, kb, func(rec sdb.Record) bool { return k.see(0, rec, cb) })
 			}})
 		}
 	}
@@ -167,7 +204,8 @@ func run(r *vt.Run, t vt.TB, s spec) {
 		attrs := w.PKKey // (DESC is ignored in files of a schema format before 4)
 		addIndexOps("w", ix, w.Entries, attrs)
 		ops = append(ops, op{name: "SelectDone(w)", high: true, run: func(cb func(string) bool) error {
-			return hl.SelectDone("w", func(row sqlittle.Row) bool { return cb(render(0, row)) }, w.Spec.ColNames()...)
+			k := newKeeper()
+			return hl.SelectDone("w", func(row sqlittle.Row) bool { return k.see(0, row, cb) }, w.Spec.ColNames()...)
 		}})
 		for name, bi := range w.Indexes {
 			ix, err := d.Index(name)
@@ -191,6 +229,12 @@ func run(r *vt.Run, t vt.TB, s spec) {
 			fail("full:error", "%s: full run fails: %v", o.name, err)
 			return
 		}
+		if rowChanged != "" {
+			msg := rowChanged
+			rowChanged = ""
+			fail("full:row-changed", "%s, run to the end: %s", o.name, msg)
+			return
+		}
 		for k := 1; k <= len(full); k++ {
 			stops++
 			var got []string
@@ -203,6 +247,12 @@ func run(r *vt.Run, t vt.TB, s spec) {
 			})
 			if err != nil {
 				fail("stop:error", "%s stopped at row %d of %d: returned error %v", o.name, k, len(full), err)
+				return
+			}
+			if rowChanged != "" {
+				msg := rowChanged
+				rowChanged = ""
+				fail("stop:row-changed", "%s stopped at row %d of %d: %s", o.name, k, len(full), msg)
 				return
 			}
 			if calls != k {
